@@ -20,6 +20,7 @@ import (
 	"sync"
 	"time"
 
+	"github.com/golang/protobuf/proto"
 	"github.com/hashicorp/memberlist"
 	"github.com/vx-labs/cluster/membership"
 	"github.com/vx-labs/commitlog/stream"
@@ -27,6 +28,7 @@ import (
 	"github.com/vx-labs/wasp/v4/rpc"
 	"github.com/vx-labs/wasp/v4/wasp"
 	"github.com/vx-labs/wasp/v4/wasp/ack"
+	"github.com/vx-labs/wasp/v4/wasp/api"
 	"github.com/vx-labs/wasp/v4/wasp/audit"
 	"github.com/vx-labs/wasp/v4/wasp/auth"
 	"github.com/vx-labs/wasp/v4/wasp/distributed"
@@ -836,10 +838,25 @@ func (w *World) Collect() []*GossipMsg {
 				g := &GossipMsg{ID: w.ngoss, From: n.ID, Raw: raw}
 				w.gossip = append(w.gossip, g)
 				w.mu.Unlock()
-				w.R.Emit(rec.Ev{"op": "gossip.out", "n": n.ID, "mid": g.ID})
+				w.R.Emit(rec.Ev{"op": "gossip.out", "n": n.ID, "mid": g.ID, "subs": decodeSubs(raw)})
 				out = append(out, g)
 			}
 		}
+	}
+	return out
+}
+
+// decodeSubs lists the subscription changes a broadcast carries (ViewTrace.tla follows what each node knows): session, hosting
+// node, filter levels (mount point first), and whether the entry says "subscribed".
+func decodeSubs(raw []byte) []map[string]interface{} {
+	out := []map[string]interface{}{}
+	ev := &api.StateBroadcastEvent{}
+	if proto.Unmarshal(raw, ev) != nil {
+		return out
+	}
+	for _, s := range ev.Subscriptions {
+		out = append(out, map[string]interface{}{"s": s.SessionID, "peer": s.Peer, "f": strings.Split(string(s.Pattern), "/"),
+			"on": s.LastAdded > 0 && s.LastAdded > s.LastDeleted})
 	}
 	return out
 }
